@@ -43,6 +43,10 @@ func reasonOf(a Atom, be *BigEval) (kind, text string) {
 		}
 		return "nil", desc(x)
 	}
+	// `v, ok := m[k]; if !ok ...`: an absent entry is the missing component `m[k]`
+	if d := desc(a.V); strings.HasPrefix(d, "has(") && strings.HasSuffix(d, ")") && a.Want == False {
+		return "nil", d[4 : len(d)-1]
+	}
 	if g, ok := parseGuard(a, be); ok {
 		subj, rel := g.Subject, g.Rel
 		// both operands equally subject-like (two message fields, two indices): name the guard by the
@@ -358,6 +362,11 @@ func treeReasons(P *Program, tree string) ([]rejReason, []string) {
 	var reasons []rejReason
 	var missing []string
 	seen := map[string]bool{}
+	// reasons are named by the object tested, not by the path it was reached through: access paths restart at
+	// every pointer to a module struct (`<rangeproof.Statement>.Factor` whether reached as a receiver or as stmts[i][j])
+	oldReroot := descReroot
+	descReroot = true
+	defer func() { descReroot = oldReroot }()
 	for _, k := range rejTrees[tree] {
 		f := P.Func(k)
 		if f == nil {
